@@ -56,7 +56,7 @@ m = {
     ],
     "checks": checks,
     "not_applicable": [],
-    "notes": "Exit codes of every command: 0 held, 1 violation (with VIOLATION line and replay file), 2 infrastructure/inconclusive. known_findings.json lists eight defects, all repaired by fix: commits in /repo (status fixed, suppress nothing). regress/ holds their minimal cases, replayed at the start of every run. seeded/ holds 251 independently written breaking changes with what caught them; mutants/ holds 66 hand-written ones (DESIGN.md section 8).",
+    "notes": "Exit codes of every command: 0 held, 1 violation (with VIOLATION line and replay file), 2 infrastructure/inconclusive. known_findings.json lists eight defects, all repaired by fix: commits in /repo (status fixed, suppress nothing). regress/ holds their minimal cases, replayed at the start of every run. seeded/ holds 269 independently written breaking changes with what caught them; mutants/ holds 66 hand-written ones (DESIGN.md section 8).",
 }
 json.dump(m, open(os.path.join(ROOT, "MANIFEST.json"), "w"), indent=1)
 print("wrote MANIFEST.json with", len(checks), "checks")
